@@ -41,8 +41,47 @@ Routine(n, v, b1, b2, call, bio) ==
       main  == main0 \o (IF call > 0 THEN <<One(5, 3, 0, 0), subat>> ELSE <<>>) \o after        \* call #sub
   IN main \o (IF call = 1 THEN Sub1 ELSE IF call = 2 THEN Sub2 ELSE <<>>)
 
-Init == \E n \in {1, 2, 3}, v \in {255, 32767, 32769}, b1 \in DOMAIN Body, b2 \in DOMAIN Body, call \in 0..2, bio \in 0..2 :
-          c = [words |-> Routine(n, v, b1, b2, call, bio), bio |-> IF bio = 0 THEN -1 ELSE Bio,
+-----------------------------------------------------------------------------
+(* Second family: one instruction under test between a fixed prologue and   *)
+(* the final ret, once for every cell of SLAU144 tables 3-15 and 3-16.      *)
+(*   prologue: mov #0x0300, r4 ; mov #V, r6     (4 words, instruction at    *)
+(*   Org + 8); data words at 0x0300: T, 0x0302, 0x1234, 0x5678              *)
+(* T (and V when the source is r6) is the address execution has to continue *)
+(* at when the destination is PC or the instruction is a call: the final    *)
+(* ret, or the one-word subroutine `ret` behind it.                         *)
+Tab == 768
+\* source operand: [as, reg, ext]
+SrcM == [rn |-> [as |-> 0, r |-> 6, ext |-> <<>>], idx |-> [as |-> 1, r |-> 4, ext |-> <<0>>],
+         abs |-> [as |-> 1, r |-> 2, ext |-> <<Tab>>], ind |-> [as |-> 2, r |-> 4, ext |-> <<>>],
+         inc |-> [as |-> 3, r |-> 4, ext |-> <<>>], imm |-> [as |-> 3, r |-> 0, ext |-> <<0>>],      \* immediate filled in below
+         cg |-> [as |-> 1, r |-> 3, ext |-> <<>>]]
+DstM == [rm |-> [ad |-> 0, r |-> 7, ext |-> <<>>], idx |-> [ad |-> 1, r |-> 4, ext |-> <<4>>],
+         abs |-> [ad |-> 1, r |-> 2, ext |-> <<Tab + 6>>], pc |-> [ad |-> 0, r |-> 0, ext |-> <<>>]]
+Single(kind, op, sm, dm, bio) ==
+  LET s  == SrcM[sm]
+      d  == IF kind = "two" THEN DstM[dm] ELSE [ad |-> 0, r |-> 0, ext |-> <<>>]
+      n  == 1 + Len(s.ext) + Len(d.ext)                              \* words of the instruction under test
+      after == Org + 8 + 2 * n                                       \* the final ret
+      subr  == after + 2                                             \* the subroutine `ret`
+      goal  == IF kind = "one" /\ op = 5 THEN subr ELSE after          \* where a loaded PC has to point
+      ext1  == IF sm = "imm" THEN <<goal>> ELSE s.ext
+      w     == IF kind = "two" THEN Two(op, s.r, s.as, d.ad, 0, d.r) ELSE One(op, s.as, 0, s.r)
+  IN [words |-> MovImm(Tab, 4) \o MovImm(goal, 6) \o <<w>> \o ext1 \o d.ext \o Ret \o Ret,
+      data  |-> <<goal, Tab + 2, 4660, 22136>>,
+      bio   |-> bio,
+      what  |-> <<kind, op, sm, dm>>]
+Singles ==
+  {Single("two", op, sm, dm, -1) : op \in {4, 5}, sm \in DOMAIN SrcM, dm \in {"rm", "idx", "abs"}}
+  \cup {Single("two", 4, sm, "pc", -1) : sm \in {"rn", "idx", "abs", "ind", "inc", "imm"}}        \* br src
+  \cup {Single("one", op, sm, "rm", -1) : op \in {0, 1, 2, 3}, sm \in {"rn", "idx", "abs", "ind", "inc"}}
+  \cup {Single("one", 4, sm, "rm", -1) : sm \in DOMAIN SrcM}                                      \* push
+  \cup {Single("one", 5, sm, "rm", -1) : sm \in {"rn", "idx", "abs", "ind", "inc", "imm"}}        \* call
+\* a byte and a word store to the break_io address (r6 holds a value whose low byte is not 0)
+BioStores == {[words |-> MovImm(Tab, 4) \o MovImm(4660, 6) \o <<Two(4, 6, 0, 1, bw, 2), Bio>> \o Ret,
+               data |-> <<0, 0, 0, 0>>, bio |-> Bio, what |-> <<"bio", bw, "", "">>] : bw \in {0, 1}}
+
+Init == (\E x \in Singles \cup BioStores : c = x) \/ \E n \in {1, 2, 3}, v \in {255, 32767, 32769}, b1 \in DOMAIN Body, b2 \in DOMAIN Body, call \in 0..2, bio \in 0..2 :
+          c = [words |-> Routine(n, v, b1, b2, call, bio), data |-> <<0, 0, 0, 0>>, bio |-> IF bio = 0 THEN -1 ELSE Bio,
                what |-> <<n, v, b1, b2, call, bio>>]
 Next == FALSE /\ UNCHANGED c
 Emit == PrintT("CASE " \o ToJson(c))
